@@ -27,12 +27,14 @@ ASSUMPTIONS = [
 
 
 def cases(rng, tier):
-    return S.gen_cases(rng, tier, 90 if tier == "quick" else 1200) + S.default_cases(random.Random(str(rng.getstate()[1][0])), tier, 150 if tier == "quick" else 2500) + S.crosstype_cases() \
+    base = S.gen_cases(rng, tier, 90 if tier == "quick" else 1200) + S.default_cases(random.Random(str(rng.getstate()[1][0])), tier, 150 if tier == "quick" else 2500) + S.crosstype_cases() \
         + X.directed_ctor_cases() + X.decimal_cases()
+    ext = S.gen_cases(random.Random("ext" + str(rng.getstate()[1][0])), tier, 70 if tier == "quick" else 1000, ext=True, prefix="E") + S.xstring_cases()
+    return base + ext
 
 
 def search_cases(rng, tier):
-    return S.gen_cases(rng, "thorough", 400)
+    return S.gen_cases(rng, "thorough", 400) + S.gen_cases(random.Random("ext-s" + str(rng.getstate()[1][0])), "thorough", 200, ext=True, prefix="E")
 
 
 def _x(case):
@@ -76,8 +78,9 @@ def judge(case, impl, model):
         return None, ([] if "skip" in impl else X.judge_decimal_ctor(case, impl))
     if _x(case):
         return None, X.judge_ctor(case, impl)
+    dev = S.deviation_findings(case, impl, "accepts-undocumented", "rejects-documented")        # the library's bare formatted-string field vs the documented language
     msg = S.correspondence(case, impl, model)
-    fails = []
+    fails = list(dev)
     if "unbuildable" in impl or "abstraction_mismatch" in impl:
         return msg, fails
     kind = S.top_kind(case)
